@@ -67,6 +67,7 @@ package delegation
 //@ pure func inSafeRange(p *int64) bool = p == nil || (-9007199254740991 <= *p && *p <= 9007199254740991)
 //@
 //@ func tokenFromModel
+//@   ensures [C09] total: true
 //@   requires m.Pol != nil
 //@   ensures [C06] issuer: result1 == nil ==> result0.issuer == parsedDID(m.Iss)
 //@   ensures [C10] wellformed: result1 == nil ==> result0 != nil && wfDlg(result0)
@@ -96,6 +97,7 @@ package delegation
 //@   ensures result != nil
 //@
 //@ func FromIPLD
+//@   ensures [C09] total: true
 //@   requires node != nil && bindnodeModelsWF()
 //@   requires forall x any :: unwrapped(x) && x is *tokenPayloadModel ==> x.(*tokenPayloadModel) != nil      // bindnode never boxes a nil model pointer
 //@   use node_sizes, node_map_children
@@ -105,15 +107,18 @@ package delegation
 //@
 //@ // ---- decoders from bytes: decode, then the verified FromIPLD -------------------------------------------
 //@ func Decode
+//@   ensures [C09] total: true
 //@   requires decFn != nil
 //@   requires bindnodeModelsWF() && (forall x any :: unwrapped(x) && x is *tokenPayloadModel ==> x.(*tokenPayloadModel) != nil)
 //@   use node_sizes, node_map_children
 //@   ensures [C06,C10] envelope: result1 == nil ==> envelopeVerified(decodeWith(decFn, bytes(b)), Tag)
 //@ func FromDagCbor
+//@   ensures [C09] total: true
 //@   requires bindnodeModelsWF() && (forall x any :: unwrapped(x) && x is *tokenPayloadModel ==> x.(*tokenPayloadModel) != nil)
 //@   use node_sizes, node_map_children
 //@   ensures [C06,C10] envelope: result1 == nil ==> envelopeVerified(decodeWith(dagcbor.Decode, bytes(data)), Tag)
 //@ func FromSealed
+//@   ensures [C09] total: true
 //@   requires bindnodeModelsWF() && (forall x any :: unwrapped(x) && x is *tokenPayloadModel ==> x.(*tokenPayloadModel) != nil)
 //@   use node_sizes, node_map_children
 //@   ensures [C06,C10] envelope: result2 == nil ==> envelopeVerified(decodeWith(dagcbor.Decode, bytes(data)), Tag)
@@ -152,6 +157,7 @@ package delegation
 //@   use node_sizes, node_map_children
 //@   assigns anything
 //@ func FromSealedReader
+//@   ensures [C09] total: true
 //@   requires r != nil
 //@   requires bindnodeModelsWF() && (forall x any :: unwrapped(x) && x is *tokenPayloadModel ==> x.(*tokenPayloadModel) != nil)
 //@   use node_sizes, node_map_children
